@@ -58,7 +58,7 @@ func runC15(cfg *config) *Report {
 		n = 1500
 	}
 	for i := 0; i < n; i++ {
-		f, err := genFile(r, genOpts{maxCL: 2, maxBundles: 2, maxItems: 3, mutateP: 60, binary: i%3 == 0})
+		f, err := genFile(r, genOpts{maxCL: 2, maxBundles: 2, maxItems: 3, mutateP: 60, binary: i%3 == 0, b64: 30, zones: i%2 == 1})
 		if err != nil {
 			continue
 		}
